@@ -25,3 +25,10 @@ package plumbing
 //gvc:  ensures cmp: result == spec_bytes_cmp(arr(s.hash), arr(b), off(b), len(b))
 //gvc:  ensures sign: -1 <= result && result <= 1
 //gvc:end
+
+// FromBytes copies 20 or 32 bytes into a fresh id (trusted: pure, no effects).
+//gvc:func FromBytes
+//gvc:  trusted
+//gvc:  results id ok
+//gvc:  ensures ok == (len(in) == 20 || len(in) == 32)
+//gvc:end
